@@ -103,3 +103,45 @@ func VerifLexerStep() {
 	}
 	vAssert(string(z.Bytes()) == string(data), "data-modified")
 }
+
+type vnBytesReader struct{ b []byte }
+
+func (r *vnBytesReader) Read(p []byte) (int, error) { return 0, io.EOF }
+func (r *vnBytesReader) Bytes() []byte              { return r.b }
+
+// VerifLexerCtor: buffer.NewLexer over any reader delivers exactly the reader's bytes followed by
+// the terminator; a reader that fails (before or after delivering data) gives a Lexer with no
+// data whose Err() is the reader's own error; nil reader and empty reader report io.EOF.
+func VerifLexerCtor() {
+	n := vRange("n", 0, vParam("N", 3))
+	b := vBytes("b", n)
+	data := append([]byte(nil), b...)
+	switch vRange("ctor", 0, 3) {
+	case 0: // plain reader: solver-chosen chunking (zero-length reads, EOF with or after the data)
+		z := NewLexer(&vnSchedReader{data: data, failAt: -1, eofWith: vBool("eofWith")})
+		vAssert(string(z.Bytes()) == string(data) && z.Peek(n) == 0, "lexer-ctor-reader-data")
+		if n > 0 {
+			vAssert(z.Err() == nil, "lexer-ctor-reader-err")
+		} else {
+			vAssert(z.Err() == io.EOF, "lexer-ctor-empty-eof")
+		}
+		vAssert(z.PeekErr(n) == io.EOF, "lexer-ctor-eof-at-end")
+		vReach("reader")
+	case 1: // reader failing once failAt bytes have been delivered
+		failAt := vRange("failAt", 0, n)
+		z := NewLexer(&vnSchedReader{data: data, failAt: failAt})
+		vAssert(z.Err() == vnFault, "lexer-ctor-reader-error-lost")
+		vAssert(z.PeekErr(0) == vnFault, "lexer-ctor-reader-error-lost-peekerr")
+		vAssert(z.Peek(0) == 0 && len(z.Bytes()) == 0, "lexer-ctor-reader-error-data")
+		vReach("reader-fail")
+	case 2: // reader with Bytes(): the buffer is used as is
+		z := NewLexer(&vnBytesReader{append(make([]byte, 0, n+1), b...)})
+		vAssert(string(z.Bytes()) == string(data) && z.Peek(n) == 0, "lexer-ctor-bytes")
+		z.Restore()
+		vReach("bytes")
+	case 3:
+		z := NewLexer(nil)
+		vAssert(len(z.Bytes()) == 0 && z.Peek(0) == 0 && z.Err() == io.EOF, "lexer-ctor-nil")
+		vReach("nil")
+	}
+}
